@@ -24,7 +24,7 @@ MANIFEST = dict(
          'change nothing; IMapIterator: for every interleaving of arrivals (each index once), next() calls and set_length(n) at any '
          'point, next() returns obj_0..obj_{n-1} in order (error items raise at their own position, iteration continues) then '
          'StopIteration, never earlier; IMapUnorderedIterator releases exactly the arrived items in arrival order; starmap/apply '
-         'corollaries. The index arithmetic and branch structure of _map_async / MapResult.__init__/_set/_ack and the bodies of '
+         'corollaries. Independence of handles: no mutable class attributes, per-instance containers (structural theorem) and multi-handle interleavings judged per handle. The index arithmetic and branch structure of _map_async / MapResult.__init__/_set/_ack and the bodies of '
          'IMapIterator._set/_set_length, IMapUnorderedIterator._set are regenerated from pool.py on every run and proved equal to the model. REFUTED (proved by witness, reproduced on the real code): with '
          'chunksize > 1 an error chunk ends the imap/imap_unordered generator -- the remaining items are never delivered; '
          'outside the property but documented: an explicit chunksize <= 0 makes map return [None]*n.',
